@@ -32,6 +32,7 @@ var c12Transforms = []gen.Transform{
 	{Name: "translate(+3,-5)", TX: 3 * gen.U, TY: -5 * gen.U},
 	{Name: "translate(+2^20-64,-(2^20-64))", TX: (1<<20 - 64) * gen.U, TY: -(1<<20 - 64) * gen.U},
 	{Name: "translate(1/8,1/8)", TX: 2, TY: 2},
+	{Name: "translate(2^20-64+1/16, -(2^19+3/16))", TX: (1<<20-64)*gen.U + 1, TY: -(1<<19)*gen.U - 3},
 	{Name: "scale*2", Num: 2},
 	{Name: "scale*1024", Num: 1024},
 	{Name: "scale/2", Den: 2},
@@ -157,7 +158,7 @@ func c12Pair(c *mon.Ctx, a, b *exact.Shape, family string, closedA bool, n int) 
 		}
 		// rigid symmetries and re-scalings of both shapes
 		for ti, t := range c12Transforms {
-			if (ti+n)%2 == 0 && !c.Thorough() && ti > 2 {
+			if (ti+n)%2 == 0 && !c.Thorough() && ti > 3 {
 				continue
 			}
 			a2, ok1 := t.ApplyShape(a)
